@@ -178,6 +178,7 @@ fn cmd_journal(scens: &[&dyn Scenario], args: &[String]) -> i32 {
     let mut src = crate::case::Source::gen(run_seed(seed, scen, index)).with_journal(f);
     let mut obs = Observer::new();
     obs.begin_run();
+    let _alive = crate::batch::watchdog::Guard::enter();
     let r = std::panic::catch_unwind(std::panic::AssertUnwindSafe(|| scen.run(&mut src, &mut obs)));
     match r {
         Ok(Ok(())) => println!("JOURNAL-OK"),
